@@ -132,6 +132,7 @@ class Ctx:
         self.notes: List[str] = []
         self.assert_counter = 0
         self.covered = True
+        self.spec_mode = 0
         self.collector = None
         self.bound_patterns: List[Any] = []
         self.handling: List[Any] = []
@@ -165,6 +166,8 @@ class Ctx:
         self.axioms.append(ax)
 
     def oblige(self, name: str, goal, kind="post", info=None):
+        if self.spec_mode:
+            return  # evaluating a specification expression never creates proof obligations
         if isinstance(goal, bool):
             goal = z3.BoolVal(goal)
         self.obligations.append(
@@ -223,6 +226,10 @@ class FunctionResult:
         self.paths = 0
         self.limits: List[str] = []
         self.instances = 0
+        self._seen = set()
+        self._keep = []
+        self.entry_pc = None
+        self.entry_axioms = None
 
 
 class Engine:
@@ -242,6 +249,7 @@ class Engine:
 
         self.lib = libmodel.Lib(self)
         self.stats = {"feasibility_checks": 0}
+        self.used_prelude_ids = set()
 
     # ------------------------------------------------------------------ helpers
     def class_by_name(self, name: str) -> ClassInfo:
@@ -285,7 +293,15 @@ class Engine:
                     if new:
                         syms |= new
                     changed = True
-        return [a for a, c in zip(self.prelude, chosen) if c]
+        out = [a for a, c in zip(self.prelude, chosen) if c]
+        for a in out:
+            self.used_prelude_ids.add(a.get_id())
+        return out
+
+    def lib_assumed(self):
+        from . import libmodel
+
+        return ["%s: %s" % kv for kv in sorted(libmodel.ASSUMED.items())]
 
     def feasible(self, ctx: Ctx, cond) -> bool:
         self.stats["feasibility_checks"] += 1
@@ -332,9 +348,11 @@ class Engine:
     def run_spec(self, ctx: Ctx, fn, *args):
         old = speclib.CTX
         speclib.CTX = ctx
+        ctx.spec_mode += 1
         try:
             return fn(*args)
         finally:
+            ctx.spec_mode -= 1
             speclib.CTX = old
 
     def abstract_field(self, ctx: Ctx, obj: Obj, name: str):
@@ -345,6 +363,21 @@ class Engine:
         v = kind.build(ctx, lambda suffix, sort: self.uf(base + suffix, V.RefSort, sort)(obj.ref))
         self.assume_wellformed(ctx, v)
         return v
+
+    def subclass_roots_defining(self, cls: ClassInfo, name: str) -> List[ClassInfo]:
+        def defines(c):
+            if name in c.methods or name in c.class_attrs:
+                return True
+            cs = self.reg.classes.get(c.qualname)
+            return bool(cs and name in cs.fields)
+
+        roots = []
+        for c in cls.all_subclasses():
+            if c is cls:
+                continue
+            if defines(c) and not any(defines(b) for b in c.mro()[1:]):
+                roots.append(c)
+        return roots
 
     def spec_getattr(self, obj: Obj, name: str):
         ctx = speclib.CTX or obj.ctx
@@ -614,14 +647,20 @@ class Engine:
                 return
             ctx = Ctx(self, contract.qualname + tagsuffix, prefix)
             try:
-                self._run_path(ctx, finfo, contract, cls, inst)
+                self._run_path(ctx, finfo, contract, cls, inst, res)
             except PathEnd:
                 pass
             except EngineLimit as e:
                 res.limits.append("%s (path %s)" % (e, ctx.taken))
             except RecursionError:
                 res.limits.append("interpreter recursion limit")
-            res.obligations.extend(ctx.obligations)
+            for ob in ctx.obligations:
+                key = (ob.name, tuple(x.get_id() for x in ob.pc), ob.goal.get_id(), len(ob.axioms))
+                if key in res._seen:
+                    continue
+                res._seen.add(key)
+                res._keep.append(ob)
+                res.obligations.append(ob)
             worklist.extend(ctx.pending)
 
     def make_param(self, ctx: Ctx, finfo: FuncInfo, contract: Contract, name: str, annotation, inst):
@@ -691,7 +730,7 @@ class Engine:
         except KeyError:
             return None
 
-    def _run_path(self, ctx: Ctx, finfo: FuncInfo, contract: Contract, cls, inst):
+    def _run_path(self, ctx: Ctx, finfo: FuncInfo, contract: Contract, cls, inst, res=None):
         args: Dict[str, Any] = {}
         a = finfo.node.args
         all_args = a.posonlyargs + a.args + a.kwonlyargs
@@ -715,7 +754,9 @@ class Engine:
                 ctx.assume(lift_bool(inv))
         for label, c in self.run_spec(ctx, lambda: contract.clauses("pre", ns)):
             ctx.assume(lift_bool(c))
-        # snapshot of 'old' values for mutable self
+        if res is not None and res.entry_pc is None:
+            res.entry_pc = list(ctx.pc)
+            res.entry_axioms = list(ctx.axioms)
         env = Env(finfo.module, None, finfo)
         env.vars.update(args)
         outcome = None
@@ -907,13 +948,15 @@ class Engine:
         n = ctx.assert_counter
         if isinstance(st.test, ast.Call) and isinstance(st.test.func, ast.Name) and st.test.func.id == "callable":
             return
+        if ctx.spec_mode:
+            return  # an assert met while a specification reads a property: neither obligation nor assumption
         c = self.truth(ctx, self.eval(ctx, st.test, env))
         label = "L%d" % n
-        ctx.oblige("%s/assert#%s" % (short(ctx.func), self._assert_label(st, env, n)), lift_bool(c), kind="assert",
+        ctx.oblige("%s/assert#%s" % (short(ctx.func), self._assert_label(st, env, n, ctx)), lift_bool(c), kind="assert",
                    info={"source": safe_unparse(st.test)})
         ctx.assume(lift_bool(c))
 
-    def _assert_label(self, st, env, n):
+    def _assert_label(self, st, env, n, ctx=None):
         # ordinal of the assert statement inside its function (stable under edits elsewhere)
         fn = env.finfo.node if env.finfo is not None else None
         if fn is not None:
@@ -922,7 +965,10 @@ class Engine:
                 if isinstance(node, ast.Assert):
                     k += 1
                     if node is st:
-                        return str(k)
+                        owner = env.finfo.qualname
+                        if owner == ctx.func.split("[")[0].split("<")[0]:
+                            return str(k)
+                        return "%s:%d" % (short(owner), k)
         return "p%d" % n
 
     def st_Raise(self, ctx, st, env):
@@ -1095,6 +1141,20 @@ class Engine:
                 return self.class_attr(ctx, ca[0], name)
             if name in o.ghost:
                 return o.ghost[name]
+            if not o.exact and self.field_kind(o.cls, name)[0] is None:
+                # attribute defined only in subclasses of the static class: narrow on the dynamic class
+                roots = self.subclass_roots_defining(o.cls, name)
+                for rcls in roots:
+                    narrowed = Obj(rcls, False, o.ref, None, ctx)
+                    if from_spec:
+                        if len(roots) == 1:
+                            return self.getattr(ctx, narrowed, name, from_spec=True)
+                        raise EngineLimit("spec reads %s defined in several subclasses" % name)
+                    cond = z3.Or(*[self.tag_fn(o.ref) == self.class_id(c) for c in rcls.all_subclasses()])
+                    if ctx.decide(cond):
+                        return self.getattr(ctx, narrowed, name)
+                if roots and not from_spec:
+                    raise PyRaise(ExcVal(V.ExtClass("AttributeError")))
             if o.fields is None or from_spec:
                 if o.fields is not None:
                     raise EngineLimit("spec reads unset field %s.%s" % (o.cls.name, name))
